@@ -1139,6 +1139,17 @@ VARIANTS += [
 ]
 
 
+# renamed locals / parameters (audit of name-based matches)
+VARIANTS += [
+    dict(prop="C19", name="send-channels-local-renamed", benign=True,
+         edits=[dict(file='ipa-core/src/protocol/context/mod.rs', find='\n    // Open communication channels to all shards on this helper and keep track of records sent\n    // through any of them.\n    let mut send_channels = ctx\n        .peer_shards()\n        .map(|shard_id| {\n            (\n', replace='\n    // Open communication channels to all shards on this helper and keep track of records sent\n    // through any of them.\n    let mut chans = ctx\n        .peer_shards()\n        .map(|shard_id| {\n            (\n'), dict(file='ipa-core/src/protocol/context/mod.rs', find='        // it is crucial that the following execution is completed sequentially, in order for record id\n        // tracking per shard to work correctly. If tasks complete out of order, this will cause share\n        // misplacement on the recipient side.\n        (input, &mut send_channels, &mut counter),\n        |(mut input, send_channels, i)| {\n            let ctx = ctx.clone();\n            async {\n                // Process more data as it comes in, or close the sending channels, if there is nothing\n', replace='        // it is crucial that the following execution is completed sequentially, in order for record id\n        // tracking per shard to work correctly. If tasks complete out of order, this will cause share\n        // misplacement on the recipient side.\n        (input, &mut chans, &mut counter),\n        |(mut input, chans, i)| {\n            let ctx = ctx.clone();\n            async {\n                // Process more data as it comes in, or close the sending channels, if there is nothing\n'), dict(file='ipa-core/src/protocol/context/mod.rs', find='                    let dest_shard = shard_picker(ctx, RecordId::from(*i), &val);\n                    *i += 1;\n                    if dest_shard == my_shard {\n                        Ok(Some(((my_shard, Some(val)), (input, send_channels, i))))\n                    } else {\n                        let (record_id, se) = send_channels.get_mut(&dest_shard).unwrap();\n                        se.send(*record_id, val)\n                            .await\n                            .map_err(crate::error::Error::from)?;\n                        *record_id += 1;\n                        Ok(Some(((my_shard, None), (input, send_channels, i))))\n                    }\n                } else {\n                    for (last_record, send_channel) in send_channels.values() {\n                        send_channel.close(*last_record).await;\n                    }\n                    Ok(None)\n', replace='                    let dest_shard = shard_picker(ctx, RecordId::from(*i), &val);\n                    *i += 1;\n                    if dest_shard == my_shard {\n                        Ok(Some(((my_shard, Some(val)), (input, chans, i))))\n                    } else {\n                        let (record_id, se) = chans.get_mut(&dest_shard).unwrap();\n                        se.send(*record_id, val)\n                            .await\n                            .map_err(crate::error::Error::from)?;\n                        *record_id += 1;\n                        Ok(Some(((my_shard, None), (input, chans, i))))\n                    }\n                } else {\n                    for (last_record, send_channel) in chans.values() {\n                        send_channel.close(*last_record).await;\n                    }\n                    Ok(None)\n')]),
+    dict(prop="C07", name="reveal-excluded-param-renamed", benign=True,
+         edits=[dict(file='ipa-core/src/protocol/basics/reveal.rs', find="pub async fn semi_honest_reveal<'fut, C, V, const N: usize>(\n    ctx: C,\n    record_id: RecordId,\n    excluded: Option<Role>,\n    share: &'fut Replicated<V, N>,\n) -> Result<Option<<V as Vectorizable<N>>::Array>, Error>\nwhere\n", replace="pub async fn semi_honest_reveal<'fut, C, V, const N: usize>(\n    ctx: C,\n    record_id: RecordId,\n    skip: Option<Role>,\n    share: &'fut Replicated<V, N>,\n) -> Result<Option<<V as Vectorizable<N>>::Array>, Error>\nwhere\n"), dict(file='ipa-core/src/protocol/basics/reveal.rs', find="    let left = share.left_arr();\n    let right = share.right_arr();\n\n    // Send shares, unless the target helper is excluded\n    if Some(ctx.role().peer(Direction::Right)) != excluded {\n        ctx.send_channel::<<V as Vectorizable<N>>::Array>(ctx.role().peer(Direction::Right))\n            .send(record_id, left)\n            .await?;\n    }\n\n    if Some(ctx.role()) == excluded {\n        Ok(None)\n    } else {\n        // Sleep until `helper's left` sends their share\n", replace="    let left = share.left_arr();\n    let right = share.right_arr();\n\n    // Send shares, unless the target helper is skip\n    if Some(ctx.role().peer(Direction::Right)) != skip {\n        ctx.send_channel::<<V as Vectorizable<N>>::Array>(ctx.role().peer(Direction::Right))\n            .send(record_id, left)\n            .await?;\n    }\n\n    if Some(ctx.role()) == skip {\n        Ok(None)\n    } else {\n        // Sleep until `helper's left` sends their share\n"), dict(file='ipa-core/src/protocol/basics/reveal.rs', find="pub async fn malicious_reveal<'fut, C, V, const N: usize>(\n    ctx: C,\n    record_id: RecordId,\n    excluded: Option<Role>,\n    share: &'fut Replicated<V, N>,\n) -> Result<Option<<V as Vectorizable<N>>::Array>, Error>\nwhere\n", replace="pub async fn malicious_reveal<'fut, C, V, const N: usize>(\n    ctx: C,\n    record_id: RecordId,\n    skip: Option<Role>,\n    share: &'fut Replicated<V, N>,\n) -> Result<Option<<V as Vectorizable<N>>::Array>, Error>\nwhere\n"), dict(file='ipa-core/src/protocol/basics/reveal.rs', find='    let right_receiver =\n        ctx.recv_channel::<<V as Vectorizable<N>>::Array>(ctx.role().peer(Direction::Right));\n\n    // Send shares to the left and right helpers, unless excluded.\n    let send_left_fut =\n        MaybeFuture::future_or_ok(Some(ctx.role().peer(Direction::Left)) != excluded, || {\n            left_sender.send(record_id, right)\n        });\n\n    let send_right_fut =\n        MaybeFuture::future_or_ok(Some(ctx.role().peer(Direction::Right)) != excluded, || {\n            right_sender.send(record_id, left)\n        });\n    try_join(send_left_fut, send_right_fut).await?;\n\n    if Some(ctx.role()) == excluded {\n        Ok(None)\n    } else {\n        let (share_from_left, share_from_right) = try_join(\n', replace='    let right_receiver =\n        ctx.recv_channel::<<V as Vectorizable<N>>::Array>(ctx.role().peer(Direction::Right));\n\n    // Send shares to the left and right helpers, unless skip.\n    let send_left_fut =\n        MaybeFuture::future_or_ok(Some(ctx.role().peer(Direction::Left)) != skip, || {\n            left_sender.send(record_id, right)\n        });\n\n    let send_right_fut =\n        MaybeFuture::future_or_ok(Some(ctx.role().peer(Direction::Right)) != skip, || {\n            right_sender.send(record_id, left)\n        });\n    try_join(send_left_fut, send_right_fut).await?;\n\n    if Some(ctx.role()) == skip {\n        Ok(None)\n    } else {\n        let (share_from_left, share_from_right) = try_join(\n')]),
+    dict(prop="C12", name="noise-param-names-renamed", benign=True,
+         edits=[dict(file='ipa-core/src/protocol/dp/mod.rs', find='    /// `success_prob` not in the range [0,1]\n    #[allow(clippy::too_many_arguments)]\n    pub fn new(\n        epsilon: f64,\n        delta: f64,\n        per_user_credit_cap: u32,\n        success_prob: f64,\n', replace='    /// `success_prob` not in the range [0,1]\n    #[allow(clippy::too_many_arguments)]\n    pub fn new(\n        eps: f64,\n        delta: f64,\n        per_user_credit_cap: u32,\n        success_prob: f64,\n'), dict(file='ipa-core/src/protocol/dp/mod.rs', find='        ell_2_sensitivity: f64,\n        ell_infty_sensitivity: f64,\n    ) -> Result<NoiseParams, String> {\n        if epsilon <= 0.0 {\n            return Err("epsilon must be > 0.0".to_string());\n        }\n        if delta <= 0.0 {\n', replace='        ell_2_sensitivity: f64,\n        ell_infty_sensitivity: f64,\n    ) -> Result<NoiseParams, String> {\n        if eps <= 0.0 {\n            return Err("epsilon must be > 0.0".to_string());\n        }\n        if delta <= 0.0 {\n'), dict(file='ipa-core/src/protocol/dp/mod.rs', find='            return Err("ell_infty_sensitivity must be > 0.0".to_string());\n        }\n        Ok(NoiseParams {\n            epsilon,\n            delta,\n            per_user_credit_cap,\n            success_prob,\n', replace='            return Err("ell_infty_sensitivity must be > 0.0".to_string());\n        }\n        Ok(NoiseParams {\n            epsilon: eps,\n            delta,\n            per_user_credit_cap,\n            success_prob,\n'), dict(file='ipa-core/src/protocol/ipa_prf/oprf_padding/insecure.rs', find='    // See dp/README.md\n    /// # Errors\n    /// will return errors if invalid DP parameters are provided.\n    pub fn new(new_epsilon: f64, new_delta: f64, new_sensitivity: u32) -> Result<Self, Error> {\n        // make sure delta and epsilon are in range, i.e. >min and delta<1-min\n        if new_epsilon < f64::MIN_POSITIVE {\n            return Err(Error::BadEpsilon(new_epsilon));\n        }\n\n        if !(f64::MIN_POSITIVE..=1.0 - f64::MIN_POSITIVE).contains(&new_delta) {\n            return Err(Error::BadDelta(new_delta));\n        }\n        if new_sensitivity > 1_000_000 {\n            return Err(Error::BadSensitivity(new_sensitivity));\n        }\n\n        // compute the smallest shift needed to achieve this delta\n        let smallest_n = find_smallest_n(new_sensitivity, new_epsilon, new_delta);\n\n        Ok(Self {\n            epsilon: new_epsilon,\n            delta: new_delta,\n            sensitivity: new_sensitivity,\n            truncated_double_geometric: TruncatedDoubleGeometric::new(\n                1.0 / new_epsilon,\n                smallest_n,\n            )?,\n        })\n', replace='    // See dp/README.md\n    /// # Errors\n    /// will return errors if invalid DP parameters are provided.\n    pub fn new(eps: f64, dlt: f64, sens: u32) -> Result<Self, Error> {\n        // make sure delta and epsilon are in range, i.e. >min and delta<1-min\n        if eps < f64::MIN_POSITIVE {\n            return Err(Error::BadEpsilon(eps));\n        }\n\n        if !(f64::MIN_POSITIVE..=1.0 - f64::MIN_POSITIVE).contains(&dlt) {\n            return Err(Error::BadDelta(dlt));\n        }\n        if sens > 1_000_000 {\n            return Err(Error::BadSensitivity(sens));\n        }\n\n        // compute the smallest shift needed to achieve this delta\n        let smallest_n = find_smallest_n(sens, eps, dlt);\n\n        Ok(Self {\n            epsilon: eps,\n            delta: dlt,\n            sensitivity: sens,\n            truncated_double_geometric: TruncatedDoubleGeometric::new(\n                1.0 / eps,\n                smallest_n,\n            )?,\n        })\n')]),
+]
+
+
 VARIANTS += [
     dict(prop="C03", name="hash-skips-first-element", expect=['HASH-cover', 'iterates-its-whole-argument'],
          edits=[dict(file="ipa-core/src/helpers/hashing.rs", find='    for x in input {\n        is_empty = false;\n        x.serialize(&mut buf);\n        sha.update(&buf);\n    }', replace='    for x in input.into_iter().skip(1) {\n        is_empty = false;\n        x.serialize(&mut buf);\n        sha.update(&buf);\n    }')]),
